@@ -122,7 +122,11 @@ type Config struct {
 	LockPoints bool          // lock/atomic operations are scheduling points
 	// NoStarve forbids advancing time while a thread is parked.
 	NoStarve bool
-	Trace    bool // keep the full trace text
+	// StarveQuantum is how far virtual time moves when time is advanced
+	// although threads are parked (all runnable threads are starved for
+	// that long). Default 1s.
+	StarveQuantum time.Duration
+	Trace         bool // keep the full trace text
 	// DrainTime is how much virtual time the drain phase lets pass before
 	// the leak oracle looks at what is still alive.
 	DrainTime time.Duration
@@ -396,6 +400,9 @@ func (s *Sched) Spawn(name string, f func()) *Thread {
 func (s *Sched) SpawnNow(name string, f func()) *Thread {
 	t := s.newThread(nil, name, name)
 	go t.run(s, f)
+	// make it the current thread, so that the canonical policy runs it
+	// next and keeps running it until it blocks
+	s.cur = t
 	return t
 }
 
@@ -642,6 +649,16 @@ func (s *Sched) loop() {
 			s.note("env " + ch.act.Label)
 			ch.act.Do()
 		default:
+			if len(par) > 0 {
+				// Starve every runnable thread for one quantum.
+				q := s.cfg.StarveQuantum
+				if q == 0 {
+					q = time.Second
+				}
+				s.note("starve-all " + q.String())
+				time.Sleep(q)
+				continue
+			}
 			s.note("advance-time")
 			// Block until a thread parks or finishes after a timer
 			// fired, or the horizon passes.
